@@ -3,4 +3,8 @@ U = dict(
     get_n_best=1,
     highest_averages=2,
     divisor=3,
+    quota_distributor=4,
+    largest_remainder=5,
+    quota=6,
+    quota_selector=7,
 )
